@@ -31,7 +31,7 @@ def log(*a):
 
 
 def load_known():
-    path = os.path.join(VERIF, 'known_findings.json')
+    path = os.environ.get('VERIF_KNOWN_FINDINGS') or os.path.join(VERIF, 'known_findings.json')
     if not os.path.exists(path):
         return []
     with open(path) as f:
